@@ -296,6 +296,8 @@ def run(ctx):
         w1b = copy.deepcopy(w1)
         extra = [{"id": f"evx{k}", "uses": "acts.event.manual"} for k in range(r.range(1, 2))]
         w1b["on"] = (extra[:1] if r.chance(1, 4) else []) + w1["on"] + extra[1:] + ([] if r.chance(1, 4) and len(extra) > 1 else extra[:1] if not w1b["on"] else [])
+        # … and that carries another name
+        w1b["name"] = (w1.get("name") or "model") + " (2nd edition)"
         seen_ids = set()
         w1b["on"] = [a for a in (w1["on"] + extra if not r.chance(1, 4) else extra + w1["on"]) if not (a["id"] in seen_ids or seen_ids.add(a["id"]))]
         ops = []
@@ -315,7 +317,7 @@ def run(ctx):
             ops.append(["model_get", "da", "json"])
             ops.append(["model_get", "db", "json"])
             ops.append(["rows", "events"])
-        scs.append({"id": f"dep-{i}", "config": {"keep": True}, "models": [w1, w2, w1b], "ops": ops})
+        scs.append({"id": f"dep-{i}", "config": {"keep": True, "store": "sqlite" if i % 2 == 1 else "mem"}, "models": [w1, w2, w1b], "ops": ops})
     res = ctx.harness("run", scs, tag="d")
     for sc, r in zip(scs, res):
         ctx.cov["evaluations"] += 1
@@ -323,6 +325,7 @@ def run(ctx):
             ctx.violation("C20|engine-panic", f"engine panicked: {str(r.get('panic'))[:100]}", {"scenario": sc})
             continue
         ver = {"da": 0, "db": 0}
+        edition = {}
         ons_of = [[a["id"] for a in m.get("on", [])] for m in sc["models"]]
         live_events = {"da": set(), "db": set()}
         by_op = {st["op"]: st["obs"] for st in r.get("steps", [])}
@@ -336,6 +339,7 @@ def run(ctx):
                     bad = ("deploy-rejected", f"deploy of a valid model failed: {obs}")
                     break
                 ver[mid] += 1
+                edition[mid] = op[1]
                 live_events[mid] = set(f"{mid}:{a}" for a in ons_of[op[1]])
             elif op[0] == "rm_model":
                 ver[op[1]] = 0
@@ -352,13 +356,23 @@ def run(ctx):
                 if v != ver[op[1]]:
                     bad = ("version", f"model {op[1]} has ver {v} after {ver[op[1]]} deploys")
                     break
-                if got:
-                    want = sc["models"][0 if op[1] == "da" else 1]
-                    try:
-                        import re
-                        stored = got[0]["data"]
-                    except Exception:
-                        stored = None
+                if got and op[1] in edition:
+                    # the record describes the edition that was deployed last: its name, and the text is that model
+                    want = sc["models"][edition[op[1]]]
+                    if (got[0].get("name") or "") != (want.get("name") or ""):
+                        bad = ("record", f"model {op[1]} is recorded under the name {got[0].get('name')!r}, the deployed edition is named {want.get('name')!r} ({sc['config']['store']})")
+                        break
+                    stored = got[0].get("parsed")
+                    if not isinstance(stored, dict):
+                        bad = ("record", f"model {op[1]}: the stored text is not a model: {str(got[0].get('data'))[:80]}")
+                        break
+                    mine = {"id": want.get("id"), "name": want.get("name") or "", "on": [a["id"] for a in want.get("on", [])],
+                            "steps": [x.get("id") for x in want.get("steps", []) if x.get("id")]}
+                    theirs = {"id": stored.get("id"), "name": stored.get("name") or "", "on": [a.get("id") for a in stored.get("on") or []],
+                              "steps": [x.get("id") for x in stored.get("steps") or [] if x.get("id") and x.get("id") in mine["steps"]]}
+                    if mine != theirs:
+                        bad = ("record", f"model {op[1]}: the stored text describes {theirs}, the deployed edition is {mine} ({sc['config']['store']})")
+                        break
             elif op[0] == "rows":
                 rows = [o for o in obs if o.get("k") == "rows"]
                 ids = set(x["id"] for x in (rows[0].get("rows") or [])) if rows else set()
